@@ -25,7 +25,10 @@ SimNext ==
                          ELSE \E c \in {RandomElement(Certs)} : Submit(c, "none")
           [] kind \in 10..15 -> IF Len(tree) > 0
                                 THEN \E i \in {RandomElement(1..Len(tree))}, v \in {RandomElement({"entries", "proof"})} :
-                                        IF RandomElement(1..6) = 1 THEN (Read(i, v, "findError") \/ Read(i, v, "none")) ELSE Read(i, v, "none")
+                                        IF Len(tree) > 1 /\ RandomElement(1..3) = 1
+                                        THEN \E a \in {RandomElement(1..Len(tree) - 1)} : \E b \in {RandomElement(a + 1..Len(tree))} :
+                                                IF RandomElement(1..3) = 1 THEN (ReadRange(a, b, "findError") \/ ReadRange(a, b, "none")) ELSE ReadRange(a, b, "none")
+                                        ELSE IF RandomElement(1..6) = 1 THEN (Read(i, v, "findError") \/ Read(i, v, "none")) ELSE Read(i, v, "none")
                                 ELSE \E c \in {RandomElement(Certs)} : Submit(c, "none")
           [] kind \in 16..18 -> IF Len(pending) > 0 THEN CacheSetFires ELSE \E c \in {RandomElement(Certs)} : Submit(c, "none")
           [] kind = 19 -> IF faults < MaxFaults /\ RandomElement(1..2) = 1 THEN Restart
